@@ -445,7 +445,7 @@ def tp_spec(mode, wavelet=0, depth=0, wavelet_ho=None, depth_ho=None, sx=1, sy=1
 
 def tp_has_default_matrix(T, t):
     who = t["wavelet"] if t["wavelet_ho"] is None else t["wavelet_ho"]
-    return (t["wavelet"], who, t["depth"], t["depth_ho"] or 0) in T.QUANTISATION_MATRICES
+    return (t["wavelet"], who, t["depth"], t["depth_ho"] or 0) in _qm()
 
 
 def encode_tp(t, version):
@@ -681,11 +681,37 @@ def _plain(v):
     return repr(v)
 
 
+_QM0 = {}
+
+
+def _qm():
+    """The default quantisation matrices as they were when this process first imported vc2_data_tables: the oracle must not read the
+    live table, which the code under check shares and could (wrongly) modify."""
+    if not _QM0:
+        import copy
+        import vc2_data_tables as T
+
+        _QM0.update(copy.deepcopy(dict(T.QUANTISATION_MATRICES)))
+    return _QM0
+
+
+def _table_corruption():
+    """Entries of the live default-matrix table that differ from the pristine copy; the live table is repaired."""
+    import copy
+    import vc2_data_tables as T
+
+    bad = [k for k, v in _qm().items() if T.QUANTISATION_MATRICES.get(k) != v]
+    for k in bad:
+        T.QUANTISATION_MATRICES[k] = copy.deepcopy(_qm()[k])
+    return bad
+
+
 def _env():
     """Imports of the tree under check, the observing State subclass and the picture_decode wrapper (once per process)."""
     if _ENV:
         return _ENV
     import vc2_data_tables as T
+    _qm()
     from vc2_conformance import decoder
     from vc2_conformance.decoder import stream as vstream
     from vc2_conformance.pseudocode.state import State
@@ -855,9 +881,9 @@ def d_transform_parameters(T, tpc, mode, version, path):
             m.setdefault(lv, {})[o] = x
     else:
         key = (out["wavelet_index"], out["wavelet_index_ho"], out["dwt_depth"], out["dwt_depth_ho"])
-        if key not in T.QUANTISATION_MATRICES:
+        if key not in _qm():
             raise Unread("%s: no default quantisation matrix for %r although the validator accepted the stream" % (path, key))
-        tab = T.QUANTISATION_MATRICES[key]
+        tab = _qm()[key]
         m = {}
         for (lv, o) in bands:
             m.setdefault(lv, {})[o] = int(tab[lv][o])
@@ -1074,7 +1100,13 @@ def check_stream(data, limit=None):
     """-> ("rejected", class) | ("ok", counts) | ("fail", [(clause, what, validator, deserialiser)], counts)
     `limit`: CPU seconds allowed to the deserialiser (needs the SIGPROF handler installed by the caller)."""
     t0 = time.process_time()
+    _qm()
     v = run_validator(data)
+    bad = _table_corruption()
+    if bad:
+        return ("fail", [("D", "the validator changed the shared table of default quantisation matrices while decoding this stream (later pictures that signal "
+                          "the default matrix would be dequantised with other values than the deserialised stream implies)", repr(sorted(bad)[:3]), "table unchanged")],
+                {"units": 0, "values": 0, "coefficients": 0, "pictures": 0})
     if v[0] == "rejected":
         return v
     tv = time.process_time() - t0
@@ -1500,7 +1532,7 @@ def fam_enc(i, rng, tier, T):
     ydepth, cdepth = rng.choice([(8, 8), (10, 10), (8, 8), (12, 9)])
     key = (wavelet, wavelet_ho, depth, ho)
     qm = None
-    if key not in T.QUANTISATION_MATRICES or rng.random() < 0.25:
+    if key not in _qm() or rng.random() < 0.25:
         qm = {}
         for (lv, o) in band_list(depth, ho):
             qm.setdefault(lv, {})[o] = rng.randrange(6)
